@@ -1,5 +1,5 @@
 import BctVerif.Lemmas.SynthRing
-import BctVerif.Lemmas.SynthEven
+import BctVerif.Lemmas.SynthHier
 import BctVerif.Lemmas.SynthDegSpec
 
 /-!
@@ -10,9 +10,11 @@ every `n`, every `k` and every list of draws (a `rng.permutation(m)` is its m va
 rejects anything that is not a permutation of `0 … m-1`, which is what NumPy returns).
 `matSum` is the model's `np.sum`; `matSum_eq_sum` identifies it with `∑ i, ∑ j, C i j`.
 
-`makeevenCIJ` (`evenCIJ`, template in closed form, `even_spec`) and `makerandCIJdegreesfixed`
-(`degreesFixed`, recorded permutation and `randint` draws, `degreesfixed_spec`) are modelled too;
-`maketoeplitzCIJ` and `makefractalCIJ` are checked by the Python predicates only.
+All seven generators have an executable model.  `makeevenCIJ` and `makefractalCIJ` build the
+hierarchical template with the doubling loop as coded (`tmpl`, `hierTemplate`); the float threshold
+matrices of `maketoeplitzCIJ` (scaled Gaussian profile) and `makefractalCIJ` (`1/E**ee`) are *inputs*
+of the model, observed in the real run as exact dyadic rationals: `norm.pdf`, the float scaling and the
+float powers are not modelled, only their structural use (`toeplitzOf`, `probConsistent`).
 
 ## The ring lattice
 
@@ -71,19 +73,45 @@ theorem randCIJ_und_total (n k : Nat) (ds : List Nat) (m : Nat) (hm : 2 * m = n 
 
 /-! ### makeevenCIJ -/
 
-/-- number of cells of the fully connected clusters (`np.size(np.where(CIJp.flatten()))`) -/
-def clusterCount (n mx szcl : Nat) : Nat := (allCells n).countP (inCluster n mx szcl)
+/-- number of cells of the fully connected clusters (`np.size(np.where(CIJp.flatten()))`) for the
+template the doubling loop builds -/
+def clusterCount (n mx szcl : Nat) : Nat := (allCells n).countP (inCluster (hierT n mx) mx szcl)
 
-/-- `makeevenCIJ(n, k, sz_cl)` with n = 2^mx ≥ 4, sz_cl ≤ mx, and a feasible k
-(`clusterCount ≤ k ≤ n(n-1)`), for every permutation draw: a 0/1 matrix with empty diagonal in which
-every cluster cell is 1 and the total number of ones is exactly k. -/
+/-- `makeevenCIJ(n, k, sz_cl)` — model with the template loop as coded.  If it returns, then n = 2^mx ≥ 4,
+and for sz_cl ≤ mx and a feasible k (`clusterCount ≤ k ≤ n(n-1)`), for every permutation draw: a 0/1
+matrix with empty diagonal in which every cluster cell is 1 and the total number of ones is exactly k. -/
 theorem even_spec (n mx k szcl : Nat) (ds : List Nat) {C : AMat Int n} {rest : List Nat}
     (h : evenCIJ n mx k szcl ds = .ok (C, rest)) (hsz : szcl ≤ mx)
     (hk1 : clusterCount n mx szcl ≤ k) (hk2 : k ≤ n * (n - 1)) :
     (∀ i j, C.toFun i j = 0 ∨ C.toFun i j = 1) ∧ (∀ i, C.toFun i i = 0) ∧
-    (∀ i j, inCluster n mx szcl (i, j) = true → C.toFun i j = 1) ∧ matSum C = k := by
-  obtain ⟨h1, h2, h3, h4⟩ := evenCIJ_core mx k szcl ds h hsz (by unfold clusterCount at hk1; exact_mod_cast hk1) hk2
+    (∀ i j, inCluster (hierT n mx) mx szcl (i, j) = true → C.toFun i j = 1) ∧ matSum C = k := by
+  obtain ⟨_, _, h1, h2, h3, h4⟩ := evenCIJ_core mx k szcl ds h hsz (by unfold clusterCount at hk1; exact_mod_cast hk1) hk2
   exact ⟨fun i j => h1 (i, j), h2, fun i j => h3 (i, j), h4⟩
+
+/-- the template of the doubling loop has an empty diagonal after `CIJ -= ones + mx_lvl * eye` -/
+theorem template_diag (n mx : Nat) (i : Fin n) : (hierT n mx).toFun i i = 0 := hierT_diag mx i
+
+/-! ### maketoeplitzCIJ -/
+
+/-- `maketoeplitzCIJ(n, k, s)`: *if it returns* (the rejection loop gives up after 10000 rounds), then
+for every scaled profile and every sequence of uniform draws the result is a 0/1 matrix with empty
+diagonal and exactly k connections. -/
+theorem toeplitz_spec (n k : Nat) (prof : List Thr) (ds : List Nat) {C : AMat Int n} {rest : List Nat}
+    (h : toeplitzCIJ n k prof ds = .ok (C, rest)) :
+    (∀ i j, C.toFun i j = 0 ∨ C.toFun i j = 1) ∧ (∀ i, C.toFun i i = 0) ∧ matSum C = k := by
+  obtain ⟨h1, h2, h3⟩ := toeplitzCIJ_core k prof ds h
+  exact ⟨fun i j => h1 (i, j), h2, h3⟩
+
+/-! ### makefractalCIJ -/
+
+/-- `makefractalCIJ(mx_lvl, E, sz_cl)` returns `(CIJ, k)` with `k` the number of connections of the
+returned 0/1 matrix, whose diagonal is empty; for every observed probability matrix that has the
+structure the code dictates and every uniform draw. -/
+theorem fractal_count (n mx szcl : Nat) (prob : AMat Thr n) (ds : List Nat)
+    {C : AMat Int n} {kk : Int} {rest : List Nat} (h : fractalCIJ n mx szcl prob ds = .ok (C, kk, rest)) :
+    kk = matSum C ∧ (∀ i j, C.toFun i j = 0 ∨ C.toFun i j = 1) ∧ (∀ i, C.toFun i i = 0) ∧ n = 2 ^ mx := by
+  obtain ⟨h1, h2, h3, h4, _⟩ := fractalCIJ_core mx szcl prob ds h
+  exact ⟨h1, fun i j => h2 (i, j), h3, h4⟩
 
 /-! ### makerandCIJdegreesfixed -/
 
@@ -166,6 +194,19 @@ example : isPermOfRange ([4, 0, 5, 1, 2, 3, 9].take (3 * (3 - 1))) (3 * (3 - 1))
 example : clusterCount 4 2 1 = 4 := by decide +kernel
 example : (evenCIJ 4 2 6 1 [7, 0, 1, 2, 3, 4, 5, 6]).toOption
     = some (#v[#v[0, 1, 1, 0], #v[1, 0, 0, 0], #v[0, 0, 0, 1], #v[0, 1, 1, 0]], []) := by decide +kernel
+-- toeplitz: n = 3, k = 2, scaled profile (1/2, 1/4); the first sample has 3 ones (rejected), the second 2
+example : (toeplitzCIJ 3 2 [(1, 2), (1, 4)]
+      ([0, 1, 1, 1, 0, 2 ^ 53 - 1, 2 ^ 53 - 1, 1, 0] ++ [0, 1, 2 ^ 53 - 1, 2 ^ 53 - 1, 0, 2 ^ 53 - 1, 2 ^ 53 - 1, 1, 0] ++ [5])).toOption
+    = some (#v[#v[0, 1, 0], #v[0, 0, 0], #v[0, 1, 0]], [5]) := by decide +kernel
+-- fractal: mx_lvl = 2 (n = 4), sz_cl = 1, E = 2: prob = 1 inside the 2-blocks, 1/2 across, 0 on the diagonal
+example : (fractalCIJ 4 2 1 #v[#v[(0, 1), (1, 1), (1, 2), (1, 2)], #v[(1, 1), (0, 1), (1, 2), (1, 2)],
+                               #v[(1, 2), (1, 2), (0, 1), (1, 1)], #v[(1, 2), (1, 2), (1, 1), (0, 1)]]
+      [0, 7, 2 ^ 52, 3, 9, 0, 2 ^ 52 + 1, 2 ^ 52 - 1, 1, 2 ^ 53 - 1, 0, 5, 2 ^ 52, 0, 2 ^ 53 - 1, 0]).toOption
+    = some (#v[#v[0, 1, 0, 1], #v[1, 0, 0, 1], #v[1, 0, 0, 1], #v[0, 1, 1, 0]], 8, []) := by decide +kernel
+-- … an inconsistent probability matrix (a non-zero diagonal entry) is refused
+example : (fractalCIJ 4 2 1 #v[#v[(1, 1), (1, 1), (1, 2), (1, 2)], #v[(1, 1), (0, 1), (1, 2), (1, 2)],
+                               #v[(1, 2), (1, 2), (0, 1), (1, 1)], #v[(1, 2), (1, 2), (1, 1), (0, 1)]] []).toOption = none := by
+  decide +kernel
 -- degrees fixed: inv = outv = (1,1,1); the identity permutation forces two repairs (switch 1, then 0)
 example : (degreesFixed (n := 3) (fun _ => 1) (fun _ => 1) [0, 1, 2, 1, 0]).toOption
     = some (#v[#v[0, 0, 1], #v[1, 0, 0], #v[0, 1, 0]], []) := by decide +kernel
